@@ -14,7 +14,13 @@ MANIFEST = {
             "(padding/offset/mask expressions, enum domains, registry keys and UUID constants regenerated from the source on every run): "
             "PDU.unpack(M.pack m) returns m (raw caches of known floors/commands = what pack emits) and re-packs to the same bytes for every "
             "well-formed message (unbounded list sizes, every padding residue, any auth value), and every decoder returns without exhausting "
-            "fuel = len+1 on every byte string with loop ticks bounded linearly. Tie: kernels + differential correspondence on structured "
+            "fuel = len+1 on every byte string with loop ticks bounded linearly. Proved in Coq (Properties/C12.v): the eight PDU round trips, "
+            "SecTrailer, floors, EptMapResult, EptMap (C12_rt_ept_map), the four verification-trailer command kinds (C12_rt_command: bitmask1, "
+            "pcontext, header2, unknown type with any value; decoded value = same typed fields with the raw value cache pack emits) and "
+            "VerificationTrailer with any number of commands ending in SEC_VT_COMMAND_END (C12_rt_verification_trailer); on arbitrary octets, "
+            "for every fuel > len: C12_total_pdu (ticks <= len), C12_total_verification_trailer (8 + 4*ticks <= len), C12_total_ept_map "
+            "(3*ticks <= len), C12_total_ept_map_result (ticks <= len, 8*towers <= len), C12_total_floors (3*ticks <= consumed octets); "
+            "no well-formedness of the octets and no additive constant is needed. Tie: kernels + differential correspondence on structured "
             "round trips, the captured test byte strings and random/mutated byte strings under an interpreter step budget.",
     "note": "pack is modelled on in-range field values (wf predicates); out-of-range values raise OverflowError in Python and are outside the statement. "
             "Messages listed under `partial` are covered by correspondence only.",
@@ -32,13 +38,10 @@ RULE = ("structured round trips per message type from boundary tables (list size
         "error class; distinct = distinct canonical input text per unit")
 
 PARTIAL: t.List[str] = [
-    "C12_rt_command / C12_rt_verification_trailer (bitmask1, pcontext, header2, unknown commands; trailer whose last command carries END): "
-    "no Coq round-trip lemma yet; covered by correspondence units rpc.roundtrip.command and rpc.roundtrip.vt only",
-    "C12_rt_ept_map (EptMap request message): no Coq round-trip lemma yet (its floor loop and entry handle are proved: C12_rt_floor, "
-    "C12_total_floors_partial); covered by correspondence unit rpc.roundtrip.eptmap only",
-    "C12_total_M: proved for the floor loop and EptMapResult.unpack (C12_total_floors_partial, C12_total_ept_map_result_partial); for PDU.unpack "
-    "(Bind/BindAck/BindNak loops), VerificationTrailer.unpack and EptMap.unpack termination/linear cost rest on rpc.arbitrary.* under the step budget",
-    "tick bounds are stated for successful decodes; on a raising path the theorem gives only fuel sufficiency (each loop <= length + 1 iterations)",
+    "tick bounds are stated for successful decodes (the models return ticks only with Ok); on a raising path the C12_total_* theorems give "
+    "fuel sufficiency only (no OutOfFuel for any fuel > length, i.e. each individual loop makes <= length iterations before the raise)",
+    "C12_rt_ept_map carries the explicit hypothesis in_range 4 (len (tower_bytes tower)) (the 4-octet tower length field pack writes): "
+    "wf_ept_map of Model/Epm.v does not state it, and a tower of >= 2^32 octets raises OverflowError in Python",
     "pack is modelled on in-range field values only (OverflowError of int.to_bytes outside the wf_* ranges is not modelled)",
 ]
 
